@@ -29,6 +29,13 @@ type UDPAudit struct {
 	PadEnd        map[string]int
 	LETypes       map[string]int
 	Head          map[string][]byte // first payload bytes of each (session,direction) stream, in sequence order
+	// Payloads: (session,direction) -> payload of each numbered segment as FIRST transmitted, in
+	// sequence order (what the application's byte stream was cut into)
+	Payloads map[string][][]byte
+	// CloseDrift: two transmissions of one close request (session, direction, seq) that differ in
+	// type or status code
+	CloseDrift []string
+	CloseRetransmitted int
 }
 
 type segKey struct {
@@ -46,7 +53,7 @@ func (k segKey) String() string {
 
 func digest(s *wire.Segment) uint64 {
 	h := sha256.New()
-	h.Write([]byte{s.Proto, s.Fragment})
+	h.Write([]byte{s.Proto, s.Fragment, s.Status})
 	h.Write(s.Payload)
 	return binary.BigEndian.Uint64(h.Sum(nil)[:8]) >> 4
 }
@@ -59,7 +66,7 @@ func numbered(s *wire.Segment) bool {
 // predicates of C02/C13/C14/C16 directly; it also builds, per session and direction, the event
 // history for the Lean acceptor.
 func (w *World) AuditUDP() *UDPAudit {
-	a := &UDPAudit{Head: map[string][]byte{}, Histories: map[string][]string{}, SegBytes: map[string][]int{}, Types: map[uint8]int{}, PadMid: map[string]int{}, PadEnd: map[string]int{}, LETypes: map[string]int{}}
+	a := &UDPAudit{Payloads: map[string][][]byte{}, Head: map[string][]byte{}, Histories: map[string][]string{}, SegBytes: map[string][]int{}, Types: map[uint8]int{}, PadMid: map[string]int{}, PadEnd: map[string]int{}, LETypes: map[string]int{}}
 	w.Net.Lock()
 	ds := append([]*simnet.Datagram(nil), w.Net.Datagrams...)
 	evs := append([]simnet.Event(nil), w.Net.Events...)
@@ -126,11 +133,27 @@ func (w *World) AuditUDP() *UDPAudit {
 	nextFirst := map[segKey]uint32{}        // next expected first-transmission seq
 	handed := map[segKey]map[uint32]bool{}  // seqs handed to the receiver of direction key
 	lastAck := map[segKey]uint32{}
+	closeFirst := map[segKey]map[uint32][2]uint8{} // close requests: seq -> (type, status) at first transmission
 	for _, it := range items {
 		s := it.seg
 		k := segKey{s.SessionID, it.c2s}
 		rev := segKey{s.SessionID, !it.c2s}
 		if it.isEmit {
+			if s.Proto == wire.CloseSessionRequest {
+				// a graceful close request takes a number from nextSend, travels through sendQueue and
+				// sendBuf and is retransmitted like data: its copies must agree too
+				if closeFirst[k] == nil {
+					closeFirst[k] = map[uint32][2]uint8{}
+				}
+				if old, ok := closeFirst[k][s.Seq]; ok {
+					a.CloseRetransmitted++
+					if old != [2]uint8{s.Proto, s.Status} || len(s.Payload) != 0 {
+						a.CloseDrift = append(a.CloseDrift, fmt.Sprintf("session %v seq %d: close request retransmitted as type %d status %d payload %d, first transmission was type %d status %d", k, s.Seq, s.Proto, s.Status, len(s.Payload), old[0], old[1]))
+					}
+				} else {
+					closeFirst[k][s.Seq] = [2]uint8{s.Proto, s.Status}
+				}
+			}
 			if numbered(s) {
 				if first[k] == nil {
 					first[k] = map[uint32]uint64{}
@@ -149,6 +172,7 @@ func (w *World) AuditUDP() *UDPAudit {
 					first[k][s.Seq] = dg
 					a.Histories[k.String()] = append(a.Histories[k.String()], fmt.Sprintf("w:%d", dg))
 					a.SegBytes[k.String()] = append(a.SegBytes[k.String()], len(s.Payload))
+					a.Payloads[k.String()] = append(a.Payloads[k.String()], s.Payload)
 					if len(a.Head[k.String()]) < 8 {
 						a.Head[k.String()] = append(a.Head[k.String()], s.Payload...)
 						if len(a.Head[k.String()]) > 8 {
